@@ -97,6 +97,8 @@ def corpus():
         "R|vpn|set x 10 5 val=conv:6 dflt=9;set x 10 4 val=raise:TraitError dflt=9;get y 11 dflt=9;del x 10 dflt=9",
         "T|new 4;property 1 2 1 1",
         "T|new 8", "T|new 9", "T|new -1",
+        # F75 / F76 / F77 / F78 as correspondence cases (exception class instead of a crash)
+        "T|new 3;probe", "T|new 7;probe", "T|new 4;property 1 2 1 1;post 0;probe", "T|new 0;default 5;probe",
         "#PROG " + json.dumps({"family": "raw-ctrait", "traits": {"i": "int"}, "steps": [
             ["new", "o"], ["raw_ctrait", 3, "bare", 0, "get"], ["gc"]]}, sort_keys=True),
         "#PROG " + json.dumps({"family": "raw-ctrait", "traits": {"i": "int"}, "steps": [
@@ -120,7 +122,7 @@ def generate(rng, tier):
         yield c
     for _ in range(nR):
         yield L.gen_r(rng)
-    for c in C14.gen_T(rng, True):
+    for c in C14.gen_T(rng, True, probes=True):
         yield c
     for _ in range(nT):
         yield C14.random_T(rng)
